@@ -17,7 +17,7 @@ from .. import tlc, graph
 from ..core import pool_map
 
 MODULE = "sim/Results.tla"
-DEVS = ["EmptyMergeAliases", "MiscMergeAdds", "SqSumNotMerged", "SkipCounterCloned"]
+DEVS = ["EmptyMergeAliases", "MiscMergeAdds", "SqSumNotMerged", "SkipCounterCloned", "MiscEmptyOperandWins"]
 NAME = "res"
 OTHER = "reps"         # a second result name in every set (SUM of 10^(alphabet index)): merges must treat every name alike
 NCHOICE = 3
@@ -300,7 +300,7 @@ def explore(ctx, typ, acc, nalpha, r, skip=False):
 
 def model_devs(ctx):
     for dev, typ, viol in [("EmptyMergeAliases", "SUM", None), ("MiscMergeAdds", "MISC", None), ("SqSumNotMerged", "RATIO", None),
-                           ("SkipCounterCloned", "SUM", None)]:
+                           ("SkipCounterCloned", "SUM", None), ("MiscEmptyOperandWins", "MISC", None)]:
         cfg, defs = model(typ, True, 2, 3, dev=[dev], emit=False)
         r = tlc.run(MODULE, cfg, defs=defs)
         if not r.violated:
@@ -313,7 +313,7 @@ def run(ctx):
                 "MaxObs observations in total (all partitions, all merge orders); distinct = (ghost state, operation) pairs executed")
     ctx.assumptions += ["observation alphabets are dyadic rationals so that float accumulation is exact",
                         "MISC results: only the value (last observation wins) is claimed",
-                        "merging a MISC result that never saw an observation is outside the law"]
+                        "a MISC operand that never saw an observation leaves the receiver as it is (no last observation to take over)"]
     thorough = ctx.tier == "thorough"
     cfgs = []
     for typ in ("SUM", "RATIO", "CHOICE", "MISC"):
